@@ -5,7 +5,7 @@ package queue
 // recorded by a pass-through proxy target: that is "what the queue accepted"; the monitor compares
 // every delivery attempt (first, retries, after restarts) with it.
 //
-//   C10 smtp <hist> <u|t|8|-...> A=<0|1> F=<hex addr> R=<hex addr>,.. H=<hex header blob> B=<kind>:<len>:<seed> [D=<0|1|2>] [P=<h>,<b>,<m>]
+//   C10 smtp <hist> <u|t|8|-...> A=<0|1> F=<hex addr> R=<hex addr>,.. H=<hex header blob> B=<kind>:<len>:<seed> [D=<0|1|2>] [P=<h>,<b>,<m>] [W=<hex addr>]
 //
 // D: the queue's bounce pipeline (absent / takes the failure reports / refuses them); default 0.
 // P: leftover files ID.header / ID.body / ID.meta.new (ID = the id the endpoint gives the message) put
@@ -57,6 +57,9 @@ type c10E2E struct {
 	// the header value and the metadata object the pipeline handed over (it still holds both)
 	srcHdr  textproto.Header
 	srcMeta *module.MsgMetadata
+	// W=<hex addr>: the sender the queue is given instead of the client's (rewritten before the queue)
+	hasRewrite bool
+	rewrite    string
 	// files of the message's own names (the id the endpoint has given it) put into the spool right
 	// before the queue stores it
 	pre c10Pre
@@ -86,7 +89,13 @@ func (p *c10Proxy) Start(ctx context.Context, msgMeta *module.MsgMetadata, mailF
 	}
 	e.started++
 	e.acc.id = msgMeta.ID
+	if e.hasRewrite {
+		// W=: this step stands for whatever rewrites the sender between the endpoint and the queue (a
+		// sender modifier, list / VERP-style rewriting); OriginalFrom stays what the client said in MAIL
+		mailFrom = e.rewrite
+	}
 	e.acc.from = mailFrom
+	e.acc.ofrom = msgMeta.OriginalFrom
 	e.w.tgt.mu.Lock()
 	e.w.tgt.id = msgMeta.ID
 	e.w.tgt.mu.Unlock()
@@ -318,7 +327,7 @@ func c10DotStuff(msg []byte) []byte {
 
 func c10Smtp(out *vh.Out, ep *c10Endpoint, op string) {
 	t := strings.Fields(op)
-	if len(t) < 9 || len(t) > 11 || t[1] != "smtp" {
+	if len(t) < 9 || len(t) > 12 || t[1] != "smtp" {
 		out.Note("unparsable smtp op")
 		return
 	}
@@ -351,6 +360,7 @@ func c10Smtp(out *vh.Out, ep *c10Endpoint, op string) {
 		switch {
 		case strings.HasPrefix(x, "D="):
 			w.dsnMode, _ = strconv.Atoi(x[2:])
+		case strings.HasPrefix(x, "W="):
 		case strings.HasPrefix(x, "P="):
 			var perr error
 			if pre, perr = c10ParsePre(x[2:]); perr != nil {
@@ -363,6 +373,11 @@ func c10Smtp(out *vh.Out, ep *c10Endpoint, op string) {
 		}
 	}
 	e := &c10E2E{w: w, acc: &c10Accepted{envUTF8: true}, pre: pre}
+	for _, x := range t[9:] {
+		if strings.HasPrefix(x, "W=") {
+			e.hasRewrite, e.rewrite = true, string(vh.UnhexBytes(x[2:]))
+		}
+	}
 	e.stopBeforeCommit = len(steps) > 0 && steps[0].restart && steps[0].commit
 	ep.auth.mu.Lock()
 	ep.auth.user, ep.auth.pass = user, pass
@@ -507,6 +522,10 @@ func c10Smtp(out *vh.Out, ep *c10Endpoint, op string) {
 		return len(strs) - 1
 	}
 	fromI := add(acc.from)
+	fromTok := strconv.Itoa(fromI)
+	if acc.ofrom != acc.from {
+		fromTok += "/" + strconv.Itoa(add(acc.ofrom))
+	}
 	var toI []string
 	for _, r := range acc.to {
 		toI = append(toI, strconv.Itoa(add(r)))
@@ -570,8 +589,8 @@ func c10Smtp(out *vh.Out, ep *c10Endpoint, op string) {
 	if len(xs) > 0 {
 		xtab = strings.Join(xs, ".")
 	}
-	runOp := fmt.Sprintf("C10 run %s %s %s:9:%d:0:%d S=%s J=%s from=%d to=%s orc=%s f=%s%s%s00 auth=%d late=1 dsn=%d X=%s peer=- pre=%s", strings.Join(hist, "."), hdr,
-		e.bufKind, len(acc.body), c10Digest(acc.body), strings.Join(ss, ","), jtab, fromI, strings.Join(toI, "."), orc,
+	runOp := fmt.Sprintf("C10 run %s %s %s:9:%d:0:%d S=%s J=%s from=%s to=%s orc=%s f=%s%s%s00 auth=%d late=1 dsn=%d X=%s peer=- pre=%s", strings.Join(hist, "."), hdr,
+		e.bufKind, len(acc.body), c10Digest(acc.body), strings.Join(ss, ","), jtab, fromTok, strings.Join(toI, "."), orc,
 		c10Bit(acc.utf8), c10Bit(acc.rtls), c10Bit(acc.tro), authN, w.dsnMode, xtab, pre)
 	obs, fin := w.observation(strs, acc.id)
 	out.Corr(runOp, obs)
@@ -732,6 +751,22 @@ func c10DecorateSmtp(r *vh.Rng, op string, hdrPct, prePct int) string {
 	return strings.Join(t, " ")
 }
 
+// c10DecorateSmtpFrom: in pct % of the cases the sender is rewritten between the endpoint and the queue
+// (W=); the client's MAIL FROM - the null reverse-path included - stays the ORIGINAL sender of the message.
+func c10DecorateSmtpFrom(r *vh.Rng, op string, pct int) string {
+	if !r.Chance(pct) || strings.Contains(op, " W=") {
+		return op
+	}
+	a := "bounces+list=" + strconv.Itoa(r.Intn(1000)) + "@lists.example.net"
+	if r.Chance(40) {
+		// valid UTF-8 only: other addresses never get past the endpoint (outside the property's domain)
+		if g := c10GenAddr(r); g != "" && utf8.ValidString(g) {
+			a = g
+		}
+	}
+	return op + " W=" + vh.HexBytes([]byte(a))
+}
+
 func TestVerifC10Smtp(t *testing.T) {
 	out := vh.Open("c10_smtp")
 	defer out.Close()
@@ -779,6 +814,7 @@ func TestVerifC10Smtp(t *testing.T) {
 	}
 	rd := vh.NewRng(vh.Seed() + 3014)
 	rp := vh.NewRng(vh.Seed() + 3015)
+	rw := vh.NewRng(vh.Seed() + 3016)
 	for i := 0; i < n; i++ {
 		op := c10GenSmtp(r, i < nbig, -1)
 		if i >= nbig {
@@ -786,6 +822,7 @@ func TestVerifC10Smtp(t *testing.T) {
 			// header fields that speak about the envelope (TLS-Required in every spelling, Return-Path, ...)
 			// whatever the options of the transaction; leftover files of the message's own names
 			op = c10DecorateSmtp(rp, op, 35, 20)
+			op = c10DecorateSmtpFrom(rw, op, 25)
 		}
 		c10Smtp(out, ep, op)
 	}
@@ -826,6 +863,15 @@ func TestVerifC10Smtp(t *testing.T) {
 		blob := " H=" + vh.HexBytes([]byte("From: a@example.org\r\n"+h+"Subject: x\r\n\r\n")) + " B=0:100:6 D=1"
 		c10Smtp(out, ep, "C10 smtp aPtt.aPto.r.aPoo "+[]string{"t8", "8"}[i%2]+env+blob)
 		c10Smtp(out, ep, "C10 smtp R.aAtt.aPoo "+[]string{"8", "ut"}[i%2]+env+blob)
+	}
+	// the sender rewritten between the endpoint and the queue: a message that arrived with the null
+	// reverse-path resp. with an address - first attempt, in-process retry, after a restart, `R`
+	for i, h := range []string{"aPoo", "aPtt.aPto.r.aPoo", "R.aAtt.r.aPpo", "aPpt.aPot.r"} {
+		wr := " W=" + vh.HexBytes([]byte("bounces+list=42@lists.example.net"))
+		tail := " H=" + vh.HexBytes([]byte("From: a@example.org\r\nSubject: x\r\n\r\n")) + " B=0:100:8 D=" + []string{"1", "2"}[i%2]
+		rc := " R=" + vh.HexBytes([]byte("b@example.org")) + "," + vh.HexBytes([]byte("c@example.org"))
+		c10Smtp(out, ep, "C10 smtp "+h+" 8 A=0 F=-"+rc+tail+wr)
+		c10Smtp(out, ep, "C10 smtp "+h+" 8 A=1 F="+vh.HexBytes([]byte("a@example.org"))+rc+tail+wr)
 	}
 	for i, p := range []string{"+17,+9,x", "x,+1,x", "+0,+0,3000", "-3,-3,100000", "x,x,100000", "+4096,+70000,0"} {
 		c10Smtp(out, ep, "C10 smtp "+[]string{"aPoo", "aPtt.aPoo", "aAtt.r.aPoo", "R.aPto.aPoo", "aPtt.r"}[i%5]+" 8"+env+" H="+vh.HexBytes([]byte("Subject: x\r\n\r\n"))+" B=0:300:7 D=1 P="+p)
